@@ -5,8 +5,11 @@ import json, os, random
 from . import common as C
 
 
-def gen_histories(sim, n_cases, max_len, seed, malformed_share=0.15, corpus=()):
+def gen_histories(sim, n_cases, max_len, seed, malformed_share=0.15, corpus=(), iter_share=0.0):
+    """iter_share: share of the histories in which member collections are handed to the implementation as tuples,
+    one-shot iterators or generators instead of lists (C.members); the record keeps the salt for replays."""
     rng = random.Random(seed)
+    irng = random.Random(seed * 7919 + 17)
     recs = []
     for ops in corpus:
         recs.append(sim.run_history(list(ops)))
@@ -14,10 +17,13 @@ def gen_histories(sim, n_cases, max_len, seed, malformed_share=0.15, corpus=()):
         style = rng.choice(sim.STYLES)
         malformed = rng.random() < malformed_share
         length = rng.randint(3, max_len)
-        r = sim.run_history(None, length=length, rng=random.Random(rng.randrange(2 ** 62)),
-                            style=style, malformed=malformed)
+        salt = irng.randrange(1, 2 ** 31) if irng.random() < iter_share else None
+        with C.presenting(salt):
+            r = sim.run_history(None, length=length, rng=random.Random(rng.randrange(2 ** 62)),
+                                style=style, malformed=malformed)
         r["style"] = style
         r["malformed"] = malformed
+        r["iter_salt"] = salt
         recs.append(r)
     return recs
 
@@ -184,6 +190,7 @@ def replay_history(prop, sim, payload, coq_import, proj_term, oracle_history):
         print("replay file has no history; broken obligation:", payload.get("broken"), detail)
         return 1
     ops = unjson(hist)
+    C.ITER_SALT = detail.get("iter_salt") or payload.get("iter_salt")
     r, mtrace = model_trace(prop, sim, ops, coq_import)
     for i, (op, exc, w, ob) in enumerate(zip(r["ops"], r["excs"], r["warns"], r["obs"])):
         print(f"step {i}: {op}\n   implementation: outcome={exc or 'returns'} warnings={w}")
